@@ -82,7 +82,8 @@ pub fn gen_packet(r: &mut Rng, o: &PktOpts) -> Vec<u8> {
     for _ in 0..qd {
         let ap = r.chance(1, 10);
         gen_name(r, &mut p, &mut starts, ap, o);
-        be16(&mut p, [1u16, 28, 15, 255][r.below(4)]);
+        // one question in five asks for a type the library special-cases when it appears as a record
+        be16(&mut p, if r.chance(1, 5) { [41u16, 2, 5, 6, 12, 39, 16, 0, 65535][r.below(9)] } else { [1u16, 28, 15, 255][r.below(4)] });
         be16(&mut p, if lie_ok && r.chance(1, 30) { 3 } else { 1 });
     }
     let mut opt_left = if r.chance(1, 2) {
@@ -145,13 +146,38 @@ pub fn gen_packet(r: &mut Rng, o: &PktOpts) -> Vec<u8> {
         let rdstart = p.len();
         match ty {
             1 => {
-                for _ in 0..(if lie_ok && r.chance(1, 12) { 3 + r.below(3) } else { 4 }) {
-                    p.push(r.next() as u8);
+                if r.chance(1, 4) {
+                    // addresses with a meaning: unspecified, loopback, broadcast, multicast, private, link-local
+                    let special: [[u8; 4]; 7] = [[0, 0, 0, 0], [127, 0, 0, 1], [255, 255, 255, 255], [224, 0, 0, 251], [10, 0, 0, 1], [169, 254, 1, 1], [192, 0, 2, 1]];
+                    p.extend(&special[r.below(special.len())]);
+                } else {
+                    for _ in 0..(if lie_ok && r.chance(1, 12) { 3 + r.below(3) } else { 4 }) {
+                        p.push(r.next() as u8);
+                    }
                 }
             }
             28 => {
-                for _ in 0..(if lie_ok && r.chance(1, 12) { 15 + r.below(3) } else { 16 }) {
-                    p.push(r.next() as u8);
+                if r.chance(1, 3) {
+                    // unspecified, loopback, IPv4-mapped, IPv4-compatible, NAT64, 6to4, Teredo, ULA, link-local, multicast, all ones
+                    let mut a = [0u8; 16];
+                    match r.below(11) {
+                        0 => {}
+                        1 => a[15] = 1,
+                        2 => { a[10] = 0xff; a[11] = 0xff; a[12] = 192; a[13] = 0; a[14] = 2; a[15] = r.next() as u8; }
+                        3 => { a[12] = 10; a[15] = 1; }
+                        4 => { a[1] = 0x64; a[2] = 0xff; a[3] = 0x9b; a[12] = 192; a[15] = 33; }
+                        5 => { a[0] = 0x20; a[1] = 0x02; a[2] = 192; a[4] = 2; a[5] = 1; }
+                        6 => { a[0] = 0x20; a[1] = 0x01; a[15] = 9; }
+                        7 => { a[0] = 0xfd; a[15] = 1; }
+                        8 => { a[0] = 0xfe; a[1] = 0x80; a[15] = 1; }
+                        9 => { a[0] = 0xff; a[1] = 0x02; a[15] = 0xfb; }
+                        _ => a = [0xff; 16],
+                    }
+                    p.extend(&a);
+                } else {
+                    for _ in 0..(if lie_ok && r.chance(1, 12) { 15 + r.below(3) } else { 16 }) {
+                        p.push(r.next() as u8);
+                    }
                 }
             }
             2 | 5 | 12 => {
@@ -534,6 +560,41 @@ pub fn boundary_packets() -> Vec<Vec<u8>> {
                     p.extend(&[1, b'x', 0, 0, 0]);
                 }
                 out.push(p);
+            }
+        }
+    }
+    // RDLENGTH sweep: for every type whose data has a shape, data made of long names, and every declared length from
+    // 0 to a little more than the true one, with the bytes present (followed by another record) and cut off
+    {
+        let n1: Vec<u8> = { let mut v = vec![20u8]; v.extend(vec![b'm'; 20]); v.extend(&[8, b'e', b'x', b'a', b'm', b'p', b'l', b'e', b's', 0]); v };   // 31 bytes
+        let n2: Vec<u8> = { let mut v = vec![25u8]; v.extend(vec![b'r'; 25]); v.extend(&[3, b'o', b'r', b'g', 0]); v };                                    // 31 bytes
+        let shapes: Vec<(u16, Vec<u8>)> = vec![
+            (2, n1.clone()), (5, n2.clone()), (12, n1.clone()), (39, n1.clone()),
+            (15, { let mut v = vec![0u8, 10]; v.extend(&n1); v }),
+            (6, { let mut v = n1.clone(); v.extend(&n2); v.extend(&[0u8; 20]); v }),
+            (41, vec![0, 10, 0, 8, 1, 2, 3, 4, 5, 6, 7, 8, 0, 12, 0, 0]),
+            (16, { let mut v = vec![30u8]; v.extend(vec![b't'; 30]); v }),
+        ];
+        for (ty, rd) in shapes {
+            for declared in 0..=(rd.len() + 3) {
+                for cut in [false, true] {
+                    let (an, ar) = if ty == 41 { (1u16, 1u16) } else { (2u16, 0u16) };
+                    let mut p = header(20, 0x8180, 1, an, 0, ar);
+                    question(&mut p, &[1, b'q', 0], 1);
+                    if ty == 41 {
+                        rr(&mut p, &[1, b'q', 0], 1, 1, &[9, 9, 9, 9]);
+                    }
+                    p.extend(if ty == 41 { vec![0u8] } else { vec![1, b'o', 0] });
+                    p.extend(&[(ty >> 8) as u8, (ty & 255) as u8, 0, 1, 0, 0, 0, 0, (declared >> 8) as u8, (declared & 255) as u8]);
+                    p.extend(&rd);
+                    if cut {
+                        let keep = p.len() - rd.len() + declared.min(rd.len());
+                        p.truncate(keep);
+                    } else if ty != 41 {
+                        rr(&mut p, &[1, b'z', 0], 1, 1, &[8, 8, 8, 8]);
+                    }
+                    out.push(p);
+                }
             }
         }
     }
@@ -1026,6 +1087,50 @@ pub fn compress_families() -> Vec<Vec<u8>> {
             rr(&mut p, &cur, 2, 1, &cur);
         }
         out.push(p);
+    }
+    // one name records k new suffixes (k around the size of the dictionary ring) and ends with the question's name,
+    // then a ladder of nested names is built on one of its suffixes (first, middle, last-but-one)
+    for k in 26usize..=36 {
+        for on in [0usize, k / 2, k - 2] {
+            for depth in [15usize, 16, 17, 20] {
+                let mut p = header(22, 0x8000, 1, (1 + depth) as u16, 0, 0);
+                let qn = [1u8, b'q', 2, b'e', b'x', 0];
+                question(&mut p, &qn, 1);
+                // labels l0 .. l(k-1), then q.ex
+                let mut long: Vec<u8> = vec![];
+                for i in 0..k {
+                    long.extend(&[2, b'a' + (i % 26) as u8, b'0' + (i / 26) as u8]);
+                }
+                long.extend(&qn);
+                rr(&mut p, &long, 1, 1, &[1, 1, 1, 1]);
+                let mut cur: Vec<u8> = long[3 * on..].to_vec();
+                for d in 0..depth {
+                    let mut nm = vec![3, b'x', b'a' + (d % 26) as u8, b'0' + (d / 26) as u8];
+                    nm.extend(&cur);
+                    if nm.len() > 255 {
+                        break;
+                    }
+                    cur = nm;
+                    rr(&mut p, &cur, 1, 1, &[2, 2, 2, 2]);
+                }
+                // fix the answer count to what was emitted
+                let mut count = 0u16;
+                {
+                    let mut off = 12 + qn.len() + 4;
+                    while off < p.len() {
+                        // skip name
+                        while p[off] != 0 {
+                            off += p[off] as usize + 1;
+                        }
+                        off += 1 + 10 + 4;
+                        count += 1;
+                    }
+                }
+                p[6] = (count >> 8) as u8;
+                p[7] = count as u8;
+                out.push(p);
+            }
+        }
     }
     // many distinct suffixes, then reuse of early and late ones
     for n in [30usize, 31, 32, 33, 34, 40, 70] {
